@@ -10,6 +10,7 @@ Variable isB : N -> bool.
 Variable sz0 : N.
 Hypothesis Hbkt : forall i, isB (bucket C i) = true.
 Hypothesis Hbk : forall node, rh C (bucket C (N.land (hashof C node) (sz0 - 1))) <= rh C node.
+Hypothesis Hrhi : forall a b, rh C a = rh C b -> hashof C a = hashof C b.      (* the reverse hash is the bit reversal of the hash *)
 Notation st := (state hloc (hprog C)).
 Notation Inv1 := (LfhtSorted.Inv C sz0).
 Notation Inv2 := (LfhtReach.Inv2 C isB).
@@ -25,7 +26,8 @@ Definition rmd (s : st) (y : N) : bool := is_removed (nxw s y).
 
 Ltac dkind Hk :=
   destruct Hk as [Hn Hi|node Hnn Hn Hi|t0 b0 u0 prev node iter Hpc Hpi Hnn Hn0 Hpv Hrm Hnode Hpp Hpr Hpo Hn Hi
-                 |prev iter nx Hpi Hpv Hrm Hp0 Hpn Hrn Hpp Hpr Hpo Hn Hi|n Hni Hpp Hpr Hom Hn Hi].
+                 |prev iter nx Hpi Hpv Hrm Hp0 Hpn Hrn Hpp Hpr Hpo Hn Hi|n Hni Hpp Hpr Hom Hn Hi
+                 |t0 old new onext szr Hpc Hoi Hnn Hn0 Hov Hrm Hnew Hpp Hpr Hpo Hn Hi].
 
 Lemma insd_kind (s s' : st) x : kind s s' -> insd s x -> insd s' x.
 Proof. intros Hk Hx. dkind Hk; apply Hi; tauto. Qed.
@@ -38,6 +40,7 @@ Proof.
   - destruct (N.eq_dec y prev) as [->|Hne]; [rewrite Hpv, Hrm in Hr; discriminate|rewrite (Hn y Hne); exact Hr].
   - destruct (N.eq_dec y prev) as [->|Hne]; [rewrite Hpv, Hrm in Hr; discriminate|rewrite (Hn y Hne); exact Hr].
   - destruct (N.eq_dec y n) as [->|Hne]; [exact Hpr|rewrite (Hn y Hne); exact Hr].
+  - destruct (N.eq_dec y old) as [->|Hne]; [exact Hpr|rewrite (Hn y Hne); exact Hr].
 Qed.
 
 Lemma reach_kind (s s' : st) a x : Inv2 s -> kind s s' -> insd s a -> rmd s' x = false -> reach s a x -> reach s' a x.
@@ -61,6 +64,10 @@ Proof.
     + unfold LfhtRch.nxf at 1 2. rewrite Hpp, Hpn. reflexivity.
   - apply (reachf_same (nxf s) (nxf s') (fun _ => True)); [|tauto|exact I|exact Hre].
     intros y _. unfold LfhtRch.nxf. destruct (N.eq_dec y n) as [->|Hy]; [exact Hpp|rewrite (Hn y Hy); reflexivity].
+  - assert (Hno : new <> old) by congruence.
+    apply (reachf_ins (nxf s) (nxf s') old new); [|exact Hpp|exact Hn0|exact Hno| |exact Hre].
+    + intros y Hy. unfold LfhtRch.nxf. rewrite (Hn y Hy). reflexivity.
+    + unfold LfhtRch.nxf. rewrite Hnew, Hov. reflexivity.
 Qed.
 
 Lemma reach_insd (s : st) a x : Inv2 s -> insd s a -> reach s a x -> insd s x.
@@ -94,6 +101,7 @@ Definition TL (s : st) (p : hpc) : Prop :=
   | A_Start node b _ | A_Gc node b _ _ _ _ => b = bkt node
   | A_Iter node b _ prev iter | A_Dup node b _ prev iter _ | A_Cas node b _ prev iter =>
       b = bkt node /\ RL s b prev /\ (ptr iter <> 0 -> RL s b (ptr iter))
+  | R_Size old new _ | R_Cas old new _ _ => rh C new = rh C old /\ key C new = key C old
   | _ => True
   end.
 
@@ -119,11 +127,23 @@ Lemma R'_kind (s s' : st) : Inv2 s -> R' s -> (forall t, TL s (PCr s t)) -> kind
 Proof.
   intros HI HR HT Hk x Hx Hr HB.
   assert (Hk0 := Hk). dkind Hk; try (apply (R'_old s s' x HI HR Hk0); [apply Hi; exact Hx|exact Hr|exact HB]).
-  destruct (proj1 (Hi x) Hx) as [Hxs| ->]; [apply (R'_old s s' x HI HR Hk0 Hxs Hr HB)|].
-  pose proof (HT t0) as Ht. rewrite Hpc in Ht. cbn [TL] in Ht. destruct Ht as (Hb & [_ [Hp|Hp]] & _).
-  - unfold rmd in Hp. rewrite Hpv, Hrm in Hp. discriminate.
-  - subst b0. assert (Hp' : reach s' (bkt node) prev) by (apply (reach_kind s s' _ _ HI Hk0 (bkt_insd s node HI)); [exact Hpr|exact Hp]).
-    unfold LfhtRch.reach in *. eapply reachf_trans; [exact Hp'|apply reachf_step; [exact Hpp|exact Hn0]].
+  - destruct (proj1 (Hi x) Hx) as [Hxs| ->]; [apply (R'_old s s' x HI HR Hk0 Hxs Hr HB)|].
+    pose proof (HT t0) as Ht. rewrite Hpc in Ht. cbn [TL] in Ht. destruct Ht as (Hb & [_ [Hp|Hp]] & _).
+    + unfold rmd in Hp. rewrite Hpv, Hrm in Hp. discriminate.
+    + subst b0. assert (Hp' : reach s' (bkt node) prev) by (apply (reach_kind s s' _ _ HI Hk0 (bkt_insd s node HI)); [exact Hpr|exact Hp]).
+      unfold LfhtRch.reach in *. eapply reachf_trans; [exact Hp'|apply reachf_step; [exact Hpp|exact Hn0]].
+  - (* replace: the new node hangs behind the old one, in the same bucket *)
+    destruct (proj1 (Hi x) Hx) as [Hxs| ->]; [apply (R'_old s s' x HI HR Hk0 Hxs Hr HB)|].
+    pose proof (HT t0) as Ht. rewrite Hpc in Ht. cbn [TL] in Ht.
+    pose proof (J_li C isB s HI t0) as Hl. unfold LfhtReach.PCr in Hl. unfold LfhtReach.PCr in Hpc. rewrite Hpc in Hl. destruct Hl as [_ [_ HoB]].
+    assert (Eb : bkt new = bkt old) by (unfold bkt; rewrite (Hrhi new old (proj1 Ht)); reflexivity).
+    rewrite Eb. unfold LfhtRch.reach in *.
+    assert (Hro : reachf (nxf s) (bkt old) old) by (apply HR; [exact Hoi|unfold rmd; rewrite Hov; exact Hrm|exact HoB]).
+    assert (Hno : new <> old) by congruence.
+    eapply reachf_trans; [|apply reachf_step; [exact Hpp|exact Hn0]].
+    apply (reachf_ins (nxf s) (nxf s') old new); [|exact Hpp|exact Hn0|exact Hno| |exact Hro].
+    + intros y Hy. unfold LfhtRch.nxf. rewrite (Hn y Hy). reflexivity.
+    + unfold LfhtRch.nxf. rewrite Hnew, Hov. reflexivity.
 Qed.
 
 Ltac ifs := repeat match goal with |- context [if ?c then _ else _] => destruct c eqn:? end.
@@ -140,10 +160,13 @@ Proof.
     - destruct (J_cm C isB s H2 y Hy) as [E|E]; [contradiction|exact E].
     - right. unfold LfhtRch.reach in *. eapply reachf_trans; [exact Hr|apply reachf_step; [reflexivity|exact Hz]]. }
   unfold hnext, hact. destruct (hcur p) eqn:Ep; cbn [eff2 snd hcur]; try exact I.
-  - (* Idle *) destruct (htodo p) as [|[node hash u|h rhh k|] rest] eqn:Et; cbn [hcur eff2 snd]; try exact I; [rewrite Ep; exact I|].
-    cbn [TL]. inversion Hops as [|o l Ho Hl]. exact Ho.
+  - (* Idle *) destruct (htodo p) as [|[node hash u|h rhh k| |new] rest] eqn:Et; cbn [hcur eff2 snd]; try exact I; [rewrite Ep; exact I| |].
+    + cbn [TL]. inversion Hops as [|o l Ho Hl]. exact Ho.
+    + unfold repl_start. destruct (found p =? 0); [exact I|]. destruct (N.eqb_spec (rh C (found p)) (rh C new)) as [E|_]; cbn [negb]; [|exact I].
+      destruct (N.eqb_spec (key C (found p)) (key C new)) as [Ek|_]; cbn [negb]; [|exact I]. cbn [TL]. split; symmetry; assumption.
   - unfold lookup_at. ifs; exact I.
   - unfold lookup_at. ifs; exact I.
+  - (* L_Ret *) ifs; exact I.
   - (* A_Size *) cbn [TL] in *. change (smem hloc (hprog C) s HSize) with (M C s HSize). rewrite (I_size C sz0 s H1). subst hash. reflexivity.
   - (* A_Start *) cbn [TL] in HT. cbn in Hl3.
     assert (Hbi : insd s b) by (apply (J_bins C isB s H2 b Hl3)).
@@ -167,6 +190,10 @@ Proof.
   - ifs; exact I.
   - unfold gc_at. ifs; exact I.
   - unfold gc_at. ifs; exact I.
+  - (* R_Size *) unfold repl_at. ifs; [exact I|exact HT].
+  - (* R_Cas *) unfold repl_at. ifs; try exact I; exact HT.
+  - unfold rgc_at. ifs; exact I.
+  - unfold rgc_at. ifs; exact I.
 Qed.
 
 Record Inv3 (s : st) : Prop := { K1 : Inv1 s; K2 : Inv2 s; K_R : R' s; K_TL : forall t, TL s (PCr s t) }.
@@ -191,6 +218,35 @@ Proof.
   intros cs. induction cs as [|c cs IH]; intros s HI; cbn [run]; [exact HI|].
   pose proof (Inv3_exec s c HI) as H1. destruct (exec hloc hloc_eqb (hprog C) c s) as [s1 e]. cbn [fst] in H1.
   specialize (IH s1 H1). destruct (run hloc hloc_eqb (hprog C) cs s1) as [s2 es]. exact IH.
+Qed.
+
+(* ---- replace is atomic: the very step that flags the old node removed links the new node - same hash, same key - behind it, live and reachable from
+   its bucket; there is no state in which the key has left the table ---- *)
+Theorem replace_cas_effect (s : st) t old new onext sz :
+  Inv3 s -> PCr s t = R_Cas old new onext sz -> nxw s old = onext ->
+  let s' := fst (exec hloc hloc_eqb (hprog C) (Step t) s) in
+  Inv3 s' /\ rmd s old = false /\ rmd s' old = true /\ ptr (nxw s' old) = new /\
+  insd s' new /\ rmd s' new = false /\ key C new = key C old /\ rh C new = rh C old /\ reach s' (bkt new) new.
+Proof.
+  intros HI Hpc Eq s'. pose proof (Inv3_exec s (Step t) HI) as HI'. fold s' in HI'. destruct HI as [H1 H2 HR HT].
+  pose proof (J_li C isB s H2 t) as Hli. rewrite Hpc in Hli. destruct Hli as [[Hrm Hnew] [Ho0 HoB]].
+  pose proof (HT t) as Ht. rewrite Hpc in Ht. cbn [TL] in Ht. destruct Ht as [Erh Ek].
+  assert (Hinn : In new (future C s t)) by (unfold future; rewrite Hpc; left; reflexivity).
+  destruct (J_fut C isB s H2 t new Hinn) as (Hnni & Hn0 & HnB).
+  assert (Es : s' = fst (exec hloc hloc_eqb (hprog C) (Step t) s)) by reflexivity.
+  rewrite (exec_shape2 C isB s t H2) in Es. cbv zeta in Es. unfold LfhtReach.PCr in Hpc. unfold hact, hpost, hnext in Es. rewrite Hpc in Es. cbn [eff2 fst snd] in Es.
+  change (smem hloc (hprog C) s (HNext old)) with (nxw s old) in Es. rewrite Eq, N.eqb_refl in Es. cbn [drain] in Es.
+  assert (Hoi : insd s old).
+  { destruct (J_cr C isB s H2 t old) as [E0|Hi]; [unfold LfhtReach.PCr; rewrite Hpc; cbn; tauto|contradiction|exact Hi]. }
+  assert (Hno : new <> old) by congruence.
+  assert (Ho' : nxw s' old = mkp new (REMOVED + OWNER)).
+  { rewrite Es. unfold LfhtReach.nxw, Mm; cbn [smem mkst2]. rewrite upd_o by discriminate. apply upd_s. }
+  assert (Hn' : nxw s' new = onext).
+  { rewrite Es. unfold LfhtReach.nxw, Mm; cbn [smem mkst2]. rewrite upd_o by discriminate. rewrite upd_o by congruence. exact Hnew. }
+  assert (Hi' : insd s' new) by (rewrite Es; unfold LfhtReach.insd, Mm; cbn [smem mkst2]; apply upd_s).
+  assert (Hr' : rmd s' new = false) by (unfold rmd; rewrite Hn'; exact Hrm).
+  split; [exact HI'|]. split; [unfold rmd; rewrite Eq; exact Hrm|]. split; [unfold rmd; rewrite Ho'; apply rem_mkp5|]. split; [rewrite Ho'; apply ptr_mkp5|].
+  split; [exact Hi'|]. split; [exact Hr'|]. split; [exact Ek|]. split; [exact Erh|]. apply (K_R s' HI' new Hi' Hr' HnB).
 Qed.
 
 (* ---- a lookup for the key of a node x that stays in the table returns a node with that key ---- *)
@@ -226,7 +282,7 @@ Proof. intros Hne. unfold hnext. destruct (hcur p); try contradiction; ifs; refl
 Lemma mu_next (p : hst) r : (mu (hnext C p r) <= mu p)%nat.
 Proof.
   unfold mu. destruct (hcur p) eqn:Ep.
-  1:{ unfold hnext. rewrite Ep. destruct (htodo p) as [|[] l] eqn:Et; cbn [hcur htodo length]; try rewrite Ep, Et; cbn [length]; lia. }
+  1:{ unfold hnext. rewrite Ep. destruct (htodo p) as [|[] l] eqn:Et; cbn [hcur htodo length]; try rewrite Ep, Et; cbn [length]; try (destruct (repl_start C _ _ _)); lia. }
   all: rewrite todo_next by (rewrite Ep; discriminate); destruct (hcur (hnext C p r)); lia.
 Qed.
 
@@ -278,7 +334,7 @@ Proof.
     destruct HQ as [[Hb1 Hb2]|[[Hd1 Hd2]|Hp]].
     + right; left. unfold During. rewrite EH. unfold hnext. rewrite Hb1, Hb2. cbn [hcur htodo TrackP]. tauto.
     + destruct (hcur (HS s)) eqn:Ep; cbn [TrackP] in Hd2; try contradiction.
-      5:{ (* L_Ret: the lookup returns *) right; right. unfold Past. rewrite EH. unfold mu, hnext. rewrite Ep. cbn [hcur htodo]. rewrite Hd1. lia. }
+      5:{ (* L_Ret: the lookup returns *) right; right. unfold Past. rewrite EH. unfold mu, hnext. rewrite Ep. destruct (node =? 0); cbn [hcur htodo]; rewrite Hd1; lia. }
       all: right; left; unfold During; rewrite EH; (split; [rewrite todo_next by (rewrite Ep; discriminate); exact Hd1|]);
         apply (TrackP_kind s s' _ H2 Hk Hr');
         apply (Track_next s (HS s) H1 H2 HR Hxi Hr (J_li C isB s H2 t) (J_l3 C isB s H2 t)); [rewrite Ep; exact Hd2|rewrite Ep; discriminate].
@@ -312,4 +368,5 @@ Proof.
 Qed.
 End FIND.
 Print Assumptions lfht_own_bucket_all_schedules.
+Print Assumptions replace_cas_effect.
 Print Assumptions lookup_returns_key.
